@@ -38,7 +38,13 @@ Spec == Init /\ [][Next]_vars /\ WF_vars(Next)
 NothingLeaks == stage = "returned" => conns = {} /\ (phase["inflight"] = "open" => "inflight" \in served)
 Returns == <>(stage = "returned")
 
+\* the same at the level of the process (command/run, runctx, shutdown.go): the shutdown is requested by a signal; an idle
+\* keep-alive client keeps the graceful phase waiting (30 s) until a second signal ends it - then everything is closed at
+\* once; the process exits with status 0 and nothing listens any more
+ProcCases == { c \in [clients : SUBSET {"idle", "inflight"}, sig : {"TERM", "INT"}, second : BOOLEAN] : c.second = ("idle" \in c.clients) }
+ProcExpect(c) == [exit |-> 0, inflightAnswered |-> "inflight" \in c.clients, allClosed |-> TRUE, listening |-> FALSE]
 Expect(c) == [activeConnections |-> 0, inflightAnswered |-> "inflight" \in c.clients, lateClientServed |-> FALSE]
-EmitCases == \A c \in Cases : PrintT(ToJson([stacking |-> c.stacking, clients |-> c.clients, when |-> c.when, exp |-> Expect(c)]))
+EmitCases == /\ \A c \in Cases : PrintT(ToJson([stacking |-> c.stacking, clients |-> c.clients, when |-> c.when, exp |-> Expect(c)]))
+             /\ \A c \in ProcCases : PrintT(ToJson([proc |-> c, exp |-> ProcExpect(c)]))
 EmitOnce == (stage = "serving" /\ \A p \in Phases : phase[p] = "absent") => EmitCases
 ==============================================================================
